@@ -26,9 +26,10 @@ pub fn sub_call_or_assignment_p() -> impl Parser<StringView, Output = Statement,
                             Statement::assignment(name_expr.clone(), right_side_expr)
                         })
                         .boxed()
-                } else if property::is_qualified(&name_expr) {
+                } else if property::is_qualified(&name_expr) || !can_be_sub_name(&name_expr) {
                     // a left-side qualified variable can only be assigned to,
-                    // i.e. SUBs can't be qualified
+                    // i.e. SUBs can't be qualified; neither can a property of an
+                    // array element (`A(1).B`) be the name of a SUB
                     err_supplier(|| ParserError::expected("=").to_fatal()).boxed()
                 } else {
                     // it's a sub call
@@ -72,6 +73,24 @@ fn expr_to_bare_name_args(name_expr: Expression) -> (BareName, Option<Expression
         // only possible if A.B is a sub, if left_name_expr contains a Function, abort
         Expression::Property(_, _, _) => (fold_to_bare_name(name_expr), None),
         _ => panic!("Unexpected name expression"),
+    }
+}
+
+/// A sub name is a name, a name followed by arguments in parenthesis,
+/// or a dotted name (`A.B.C`, which parses as a property expression).
+fn can_be_sub_name(expr: &Expression) -> bool {
+    match expr {
+        Expression::FunctionCall(_, _) | Expression::Variable(_, _) => true,
+        Expression::Property(_, _, _) => is_dotted_name(expr),
+        _ => false,
+    }
+}
+
+fn is_dotted_name(expr: &Expression) -> bool {
+    match expr {
+        Expression::Variable(_, _) => true,
+        Expression::Property(boxed_left_side, _, _) => is_dotted_name(boxed_left_side),
+        _ => false,
     }
 }
 
